@@ -184,7 +184,8 @@ def denormalize_pixels_range(pixels, out_dtype):
             "is unknown".format(out_dtype)
         )
 
-    return (pixels * max_range).astype(out_dtype)
+    # round to the nearest level (plain truncation maps e.g. 33/255 back to 32)
+    return np.round(pixels * max_range).astype(out_dtype)
 
 
 def channels_to_back(pixels):
